@@ -17,11 +17,12 @@ Inductive stmt (expr : Type) :=
 | SReturn (e : expr)
 | SLabelled (l : label) (s : stmt expr)
 | SThrow (e : expr)
-| STry (b : list (stmt expr)) (c : option (list (stmt expr))) (f : option (list (stmt expr))).
+| STry (b : list (stmt expr)) (c : option (list (stmt expr))) (f : option (list (stmt expr)))
+| SSwitch (e : expr) (cases : list (option expr * list (stmt expr))).
 Arguments SExpr {expr}. Arguments SBlock {expr}. Arguments SIf {expr}. Arguments SWhile {expr}.
 Arguments SDoWhile {expr}. Arguments SFor {expr}.
 Arguments SBreak {expr}. Arguments SContinue {expr}. Arguments SReturn {expr}.
-Arguments SLabelled {expr}. Arguments SThrow {expr}. Arguments STry {expr}.
+Arguments SLabelled {expr}. Arguments SThrow {expr}. Arguments STry {expr}. Arguments SSwitch {expr}.
 
 Inductive oval (val : Type) := OEmpty | OVal (v : val) | OBrk (l : label) | OCont (l : label) | ORet (v : val).
 Inductive ores (val : Type) := ONorm (o : oval val) | OExn (v : val) | OFuel.
@@ -42,12 +43,41 @@ Variable poll : st -> st * option val.
 (* what tryCatchEvaluate turns a caught payload into when it is re-thrown (a host panic
    becomes an ordinary JavaScript exception once a try statement has recovered it) *)
 Variable recatch : val -> val.
+(* strict equality of two values (calculateComparison STRICT_EQUAL / ES5 11.9.6) *)
+Variable veq : val -> val -> bool.
 Notation stmt := (stmt expr).
 Notation oval := (oval val). Notation ores := (ores val).
 Notation compl := (compl val). Notation sres := (sres val).
 
 Definition is_res (o : oval) := match o with OBrk _ | OCont _ | ORet _ => true | _ => false end.
 Definition pop (L : list label) : list label := match L with [] => [] | _ => removelast L end.
+
+(* ---------- switch: clause selection, shared by both semantics ----------
+   cmplEvaluateNodeSwitchStatement evaluates the case expressions in source order, skipping the
+   default clause, until one is strictly equal to the discriminant value; ES5 12.11 searches the
+   clauses before the default, then those after it, which is the same order.  When none matches,
+   execution starts at the default clause (if any) and falls through the clauses after it. *)
+Notation clause := (option expr * list stmt)%type.
+Fixpoint find_case (cs : list clause) (v : val) (s : st) (i : nat) : st * (option nat + val) :=
+  match cs with
+  | [] => (s, inl None)
+  | (None, _) :: cs' => find_case cs' v s (S i)
+  | (Some e, _) :: cs' =>
+      match eval s e with
+      | (s', inr x) => (s', inr x)
+      | (s', inl w) => if veq v w then (s', inl (Some i)) else find_case cs' v s' (S i)
+      end
+  end.
+Fixpoint default_index (cs : list clause) (i : nat) : option nat :=
+  match cs with
+  | [] => None
+  | (None, _) :: _ => Some i
+  | _ :: cs' => default_index cs' (S i)
+  end.
+Definition bodies (cs : list clause) : list stmt := concat (map snd cs).
+Definition body_from (cs : list clause) (i : nat) : list stmt := bodies (skipn i cs).
+Definition switch_target (cs : list clause) (r : option nat) : option nat :=
+  match r with Some i => Some i | None => default_index cs 0 end.
 
 (* ---------- otto-style (cmpl_evaluate_statement.go) ---------- *)
 Section OttoIter.
@@ -251,6 +281,20 @@ Fixpoint exec_o (fuel : nat) (s0 : st) (L : list label) (s : stmt) {struct fuel}
     | STry b c f =>
         (* try/catch/finally bodies are block statements *)
         ofinally (opolled (oblock (exec_o fuel))) (ocatch (opolled (oblock (exec_o fuel))) (opolled (oblock (exec_o fuel)) s0 L b) c) f
+    | SSwitch e cases =>
+        (* labels := append(rt.labels, ""); rt.labels = nil; the discriminant is evaluated once *)
+        match eval s0 e with
+        | (s1, inr x) => (s1, [], OExn x)
+        | (s1, inl v) =>
+          match find_case cases v s1 0 with
+          | (s2, inr x) => (s2, [], OExn x)
+          | (s2, inl r) =>
+            match switch_target cases r with
+            | Some i => oblock (exec_o fuel) s2 (L ++ [0]) (body_from cases i)
+            | None => (s2, [], ONorm OEmpty)
+            end
+          end
+        end
     end
     end
   end.
@@ -430,12 +474,31 @@ Fixpoint exec_s (fuel : nat) (s0 : st) (LS : list label) (s : stmt) {struct fuel
         end
     | STry b c f =>
         sfinally (spolled (slist (exec_s fuel))) (scatch (spolled (slist (exec_s fuel))) (spolled (slist (exec_s fuel)) s0 b) c) f
+    | SSwitch e cases =>
+        (* 12.11: the statement is in the label set LS + the empty label; a break to it ends it normally *)
+        match eval s0 e with
+        | (s1, inr x) => (s1, SDone (CThrow x))
+        | (s1, inl v) =>
+          match find_case cases v s1 0 with
+          | (s2, inr x) => (s2, SDone (CThrow x))
+          | (s2, inl r) =>
+            match switch_target cases r with
+            | Some i =>
+                match slist (exec_s fuel) s2 (body_from cases i) with
+                | (s3, SDone (CBreak t)) => if mem t (LS ++ [0]) then (s3, SDone CNormal) else (s3, SDone (CBreak t))
+                | r3 => r3
+                end
+            | None => (s2, SDone CNormal)
+            end
+          end
+        end
     end
     end
   end.
 
 End Sem.
 Arguments exec_o {st val expr}. Arguments exec_s {st val expr}.
+Arguments find_case {st val expr}. Arguments default_index {expr}. Arguments bodies {expr}. Arguments body_from {expr}. Arguments switch_target {expr}.
 Arguments olist {st val expr}. Arguments owhile {st val expr}. Arguments odowhile {st val expr}. Arguments ofor {st val expr}. Arguments sdowhile {st val expr}. Arguments sfor {st val expr}. Arguments oblock {st val expr}.
 Arguments slist {st val expr}. Arguments ocatch {st val expr}. Arguments ofinally {st val expr}. Arguments scatch {st val expr}. Arguments sfinally {st val expr}. Arguments swhile {st val expr}.
 Arguments is_res {val}.
